@@ -73,8 +73,25 @@ pub fn gen_entries(rng: &Rng, max_files: usize) -> Entries {
                 1 => n0.to_uppercase(),
                 _ => n0.chars().enumerate().map(|(i, c)| if i % 2 == 0 { c.to_ascii_uppercase() } else { c.to_ascii_lowercase() }).collect(),
             };
-            if rng.chance(2, 3) {
+            if rng.chance(1, 2) {
                 v.push((name, l0));
+                continue;
+            }
+            if rng.chance(1, 2) {
+                // the same lines and one or two more behind them (now and then behind 20-300 common ones)
+                let mut l1 = l0.clone();
+                if rng.chance(1, 2) {
+                    let base = l1.iter().next_back().copied().unwrap_or(0).max(0);
+                    for i in 0..rng.range(20, if rng.chance(1, 6) { 300 } else { 40 }) {
+                        l1.insert(base + 1 + i as i32);
+                    }
+                    let last = v.len() - 1;
+                    let _ = last;
+                    v.push((name.clone(), l1.clone()));
+                }
+                let top = l1.iter().next_back().copied().unwrap_or(0).max(0);
+                l1.insert(top + rng.range(1, 9) as i32);
+                v.push((name, l1));
                 continue;
             }
             let k = rng.range(1, 5);
